@@ -9,6 +9,7 @@ from vlib import gen_json as G, gen_pyvalues as GP, keys, ref_grammar as g
 from vlib import fuzz as FZ
 from vlib import cfgunit as _cfgunit, interrupt as _interrupt
 from vlib.runner import Unit, Violation
+from vlib import interfere as _interfere, interrupt as _interrupt
 
 PROPERTY = "C15"
 LEVEL = "exploration"
@@ -306,4 +307,6 @@ UNITS = [
     _interrupt.unit_interrupted(PROPERTY, 'strings', quick=30, thorough=750, max_points=150),
     _interrupt.unit_interrupted(PROPERTY, 'entries', quick=30, thorough=750, max_points=150),
     _interrupt.unit_interrupted(PROPERTY, 'keylists', quick=20, thorough=500, max_points=150),
+    _interfere.unit_after(PROPERTY, 'strings', quick=150, thorough=6000),
+    _interfere.unit_after(PROPERTY, 'entries', quick=150, thorough=6000),
 ]
